@@ -74,7 +74,8 @@ def run_nlc(case, ctx):
     cols = ["v%d" % i for i in range(d)] if case["sub"] % 2 else ["b", "a", "zz", "c", "y", "k"][:d]
     df = pandas.DataFrame(X.copy(), columns=cols)
     if case["sub"] % 3 == 0:
-        df.index = numpy.arange(100, 100 + len(df))
+        df.index = numpy.arange(100, 100 + len(df)) if case["sub"] % 2 else numpy.random.RandomState(
+            case["sub"] % 997).permutation(len(df))
     cfg = {"table": kind, "model": mname, "n": X.shape[0], "d": d, "draws": draws, "sub": case["sub"]}
     ctx.cls("table=" + kind)
     ctx.cls("model=" + mname)
